@@ -417,7 +417,8 @@ def r4(c):
         detail = "no single store keyed by mangle_united_community_list_name(condition.value)"
     c.check("C14.R4", ok, repo.loc(cm, united[0] if united else fn), "get_used_united_community_lists/store-per-name",
             f"{detail}: a HAS_ANY over the same lists in another order is referenced by the policy as a different name (`A_OR_B` vs `B_OR_A`) but would not be defined", key_text="united-store")
-    skips = [n for n in walk_no_nested(fn) if isinstance(n, ast.Continue)]
+    skips = [n for n in walk_no_nested(fn) if isinstance(n, ast.Continue)
+             and [a for a in G.atoms(gm.formula(n, G.GuardEnv(), skip_early=True)) if "operator" not in a and "len(condition.value)" not in a]]
     c.check("C14.R4", not skips, repo.loc(cm, skips[0] if skips else fn), "get_used_united_community_lists/no-skip", f"`continue` under [{G.show(gm.formula(skips[0])) if skips else ''}] skips a referenced union", key_text="united-skip")
     for modname, fname in (("annet.rpl_generators.policy", "_arista_match"), ("annet.rpl_generators.community", "CommunityListGenerator.run_arista")):
         m = repo.module(modname)
